@@ -5,6 +5,7 @@
 -/
 import RapidProofs.Shrink
 import RapidProofs.PassRefine
+import RapidProofs.PruneAssert
 import RapidModel.Generated.CallOrders
 
 namespace Rapid.C05
@@ -66,6 +67,15 @@ theorem concrete_shrinker_result (p : Prog) (hP : PruneOK p) (F : Nat) (s : SS) 
   have := shrinkWith_spec p cands s.shr h
   rw [h2] at this
   exact ⟨s', h1, this.1, this.2.1, this.2.2⟩
+
+/-- for every property function built from Custom-free generators and the `*T` API the
+    assertion of `prune()` never fires (`PruneOK`), so the statement about the concrete shrinker
+    needs no hypothesis about recordings at all -/
+theorem shrinker_result_for_generator_properties (e : Env) (hrt : RTPos e) (p : Prog) (hp : PropProg e p)
+    (F : Nat) (s : SS) (hr : RecWF s.rc) (h : FromRun p s.shr) :
+    ∃ s', (shrinkScript F).run p s = .ok ((), s') ∧ sle s'.rc.data s.rc.data ∧ tbKey s'.err = tbKey s.err ∧
+      FromRun p ⟨s'.rc.data, s'.err⟩ :=
+  concrete_shrinker_result p (pruneOK_of_propProg e hrt hp) F s hr h
 
 /-- `prune()` of the recording of ANY run of ANY program keeps exactly the words the model calls
     `kept` (everything except finished discarded groups) … -/
